@@ -3385,7 +3385,9 @@ func (bc *Blockchain) GetTestHistoricVM(t trigger.Type, tx *transaction.Transact
 	dTrie.Version = bc.dao.Version
 	// Initialize native cache before passing DAO to interop context constructor, because
 	// the constructor will call BaseExecFee/StoragePrice policy methods on the passed DAO.
-	err = bc.initializeNativeCache(b.Index, dTrie)
+	// The DAO holds the state of the previous block, natives (or their settings)
+	// that the requested block itself introduces are not there yet.
+	err = bc.initializeNativeCache(b.Index-1, dTrie)
 	if err != nil {
 		return nil, fmt.Errorf("failed to initialize native cache backed by historic DAO: %w", err)
 	}
